@@ -43,8 +43,8 @@ def run(rep):
 
     # two deviations for the consumers that mix a multi-topic ephemeral source with a synchronized one (a partial ephemeral set has to
     # stay partial across the blocking poll and the non-blocking re-check that follows it)
-    explore.explore(rep, 'mixed2topics-d2', [s for s in fam if s['name'].startswith('mixed2topics/') and s['name'].endswith('/p40')], 2, bases[:1],
-                    'checks.oracles:oracle_c05', budget_s=900)
+    explore.explore(rep, 'mixed2topics-d2', [s for s in fam if s['name'].startswith('mixed2topics/') and s['name'].endswith('/p40')], 2,
+                    bases if not quick else sorted({bases[0], 'fifo'}), 'checks.oracles:oracle_c05', budget_s=900)      # (the window is narrow: always under 'fifo' as well)
 
     # "never delays the publisher": differential timing on the default schedule (ephemeral-rejoin changes the sink's inputs, so it is excluded)
     items = [(s, b) for s in fam if not s['name'].startswith('ephemeral-rejoin') for b in bases]
